@@ -881,6 +881,16 @@ def run(chk, P):
     chk.floor('R09.9', 2)
     r09_12(chk, P, E)
     chk.floor('R09.12', 5)
+    chk.rule('R09.13', 'every link and every sample is accounted for, or the open fails: a read error met by the scans that build the '
+             'link tables is not taken for the end of the data (same obligations as R12.13) -- a link start, link end or link '
+             'count computed from the pages read before the error is never stored in a handle whose open succeeds')
+    from rules import c12
+    c12.r12_13(common.Proxy(chk, 'R09.13'), P, rule='R09.13')
+    chk.floor('R09.13', 8)
+    chk.rule('R09.14', 'a failing read is told from the end of the data (same obligations as R12.14): the open-time scans give up on a '
+             'read error but carry on after "no more data", so a read error answered as end of data yields an open with fewer links')
+    c12.r12_14(common.Proxy(chk, 'R09.14'), P, rule='R09.14')
+    chk.floor('R09.14', 2)
     r09_10(chk, P)
     chk.floor('R09.10', 1)
     r09_11(chk, P)
